@@ -472,6 +472,31 @@ def r_no_swallowed_exceptions(ctx: Ctx, rule: str) -> None:
                             line=h.lineno,
                             func="<except>",
                         )
+                    # a handler that re-raises must not change what escapes: catching a class that has subclasses and
+                    # raising a fixed class turns each of them (EngineError, ColumnError, ...) into that class
+                    if reraises and h.type is not None:
+                        caught = [c for c in (m.resolve_class(mod, nm) for nm in names) if c is not None]
+                        wide = [c for c in caught if m.subclasses(c, strict=True)] or ([nm for nm in names if nm in ("Exception", "BaseException", "LookupError", "ArithmeticError", "OSError")])
+                        for x in (x for b in h.body for x in ast.walk(b) if isinstance(x, ast.Raise)):
+                            e = x.exc
+                            if e is None or (isinstance(e, ast.Name) and e.id == h.name):
+                                continue
+                            if isinstance(e, ast.Call) and isinstance(e.func, ast.Call) and isinstance(e.func.func, ast.Name) and e.func.func.id == "type" and [src(a) for a in e.func.args] == [h.name]:
+                                continue  # raise type(err)(...)
+                            if isinstance(e, ast.Call) and (dotted(e.func) or "").split(".")[-1] in ("with_traceback",):
+                                continue
+                            if wide:
+                                bad += 1
+                                wn = wide[0].name if hasattr(wide[0], "name") else wide[0]
+                                run.fail(
+                                    rule,
+                                    f"{mod.rel}:except:{'/'.join(sorted(names))}:reraise:{bad}",
+                                    f"`except {src(h.type)}` at line {h.lineno} re-raises as `{src(e)[:60]}`: {wn} has subclasses, and every one of them that passes through here "
+                                    f"(an EngineError, a ColumnError) leaves as the fixed class - callers that catch the documented subclass no longer see it (use a bare `raise`, or `raise type({h.name or 'err'})(...)`)",
+                                    file=mod.path,
+                                    line=x.lineno,
+                                    func="<except>",
+                                )
             elif isinstance(node, ast.Call) and (dotted(node.func) or "").split(".")[-1] == "suppress":
                 n += 1
                 bad += 1
@@ -834,3 +859,124 @@ def r_no_double_formatting(ctx: Ctx, rule: str) -> None:
             else:
                 run.ok(rule, inst)
     run.ok(rule, "scanned:all-functions", {"sites": n})
+
+
+_STATIC_FACES = ("min_rows", "max_rows", "columns", "engine", "is_locked", "is_join_identity", "is_trivial", "__eq__", "__hash__", "__str__", "__repr__")
+
+
+def r_metadata_ignores_payload(ctx: Ctx, rule: str) -> None:
+    """`payload` is the one slot that is filled in later (execute(), Processor.process()); what a relation says about
+    itself must not move when that happens."""
+    run, m = ctx.run, ctx.m
+    run.rule(
+        rule,
+        "no static face of a relation (min_rows, max_rows, columns, engine, is_locked, is_join_identity, is_trivial, "
+        "equality, hash, str) reads a payload: payloads are attached to existing relations by execute()/process(), so "
+        "bounds or flags computed from one change under relations that were built on top of it, and equal relations "
+        "(one evaluated, one rebuilt) disagree",
+        expected_min=10,
+    )
+    n = 0
+    for c in m.subclasses(ctx.k.relation_root):
+        if c.module.rel.startswith("tests"):
+            continue
+        for name in _STATIC_FACES:
+            f = c.methods.get(name)
+            if f is None:
+                continue
+            n += 1
+            reads = [x for x in ast.walk(f.node) if isinstance(x, ast.Attribute) and x.attr == "payload" and isinstance(x.ctx, ast.Load)]
+            inst = f"{c.name}.{name}"
+            if reads:
+                run.fail(
+                    rule,
+                    inst,
+                    f"{c.name}.{name} reads `{src(reads[0])[:40]}`: the value changes when execute() or a Processor attaches the payload to the existing relation - every relation built on it reports other "
+                    "bounds afterwards, and an equal relation built later keeps the old ones",
+                    fi=f,
+                    node=reads[0],
+                )
+            else:
+                run.ok(rule, inst)
+    if n == 0:
+        raise AnalysisError("no relation class defines any of the static faces")
+
+
+def _fresh_set(e: ast.AST) -> bool:
+    if isinstance(e, (ast.Set, ast.SetComp)):
+        return True
+    if isinstance(e, ast.Call) and isinstance(e.func, ast.Name) and e.func.id in ("set", "frozenset"):
+        return True
+    if isinstance(e, ast.BinOp) and isinstance(e.op, (ast.BitOr, ast.BitAnd, ast.Sub, ast.BitXor)):
+        return _fresh_set(e.left) or _fresh_set(e.right)
+    return False
+
+
+def r_no_order_from_fresh_sets(ctx: Ctx, rule: str) -> None:
+    """`list({*a, *b})` de-duplicates and, silently, re-orders: by hash - for objects hashed by identity, by address."""
+    run, m = ctx.run, ctx.m
+    run.rule(
+        rule,
+        "no sequence takes its order from a hash set built on the spot: `list(set(...))`, `tuple({...})`, `[f(x) for x in "
+        "{...}]` order their elements by hash, which for SQL elements, engines and other identity-hashed objects is the "
+        "memory address - the same relation then compiles to differently ordered WHERE / ON / select lists from call to "
+        "call (`sorted(..., key=...)` or `dict.fromkeys(...)` keep an order)",
+        expected_min=1,
+    )
+    n = 0
+    for mod in m.modules.values():
+        if mod.rel.startswith("tests"):
+            continue
+        tree = ast.parse(mod.source, filename=mod.path)
+        for x in ast.walk(tree):
+            site = None
+            if isinstance(x, ast.Call) and isinstance(x.func, ast.Name) and x.func.id in ("list", "tuple") and len(x.args) == 1 and _fresh_set(x.args[0]):
+                site = x
+            elif isinstance(x, ast.ListComp) and _fresh_set(x.generators[0].iter):
+                site = x
+            elif isinstance(x, ast.Starred) and _fresh_set(x.value) and isinstance(x.ctx, ast.Load):
+                site = x
+            elif isinstance(x, ast.For) and _fresh_set(x.iter) and any(isinstance(c, ast.Call) and isinstance(c.func, ast.Attribute) and c.func.attr in ("append", "extend", "insert") for b in x.body for c in ast.walk(b)):
+                site = x
+            if site is None:
+                continue
+            n += 1
+            run.fail(
+                rule,
+                f"{mod.rel}:{site.lineno}",
+                f"`{src(site)[:70]}` takes its order from a set built right there: the elements come out in hash order, which differs between runs (and, for objects hashed by identity, between calls), "
+                "so whatever is built from the sequence - a WHERE clause, a select list, a tuple of operands - is not a function of the relation",
+                file=mod.path,
+                line=site.lineno,
+                func="<expression>",
+            )
+    run.ok(rule, "package:scanned", {"sites": n})
+
+
+def r_no_truthiness_dunders(ctx: Ctx, rule: str) -> None:
+    """`if projection:` / `x or default` on an operation, relation or expression asks "is there one?" - until the class
+    grows a __len__ or __bool__."""
+    run, m = ctx.run, ctx.m
+    run.rule(
+        rule,
+        "no relation, operation or expression class defines __bool__ or __len__: these objects are tested by truthiness "
+        "all over the package and by callers (`if projection`, `predicate or default`, the flag Select.strip() hands "
+        "back), which means 'present'; a container-like __len__ makes an empty projection, an empty sort or a "
+        "zero-column relation count as absent",
+        expected_min=20,
+    )
+    k = ctx.k
+    classes = []
+    for group in (k.column_exprs, k.predicates, k.containers, k.unary_ops, k.binary_ops):
+        classes += list(group)
+    classes += [c for c in m.subclasses(k.relation_root)]
+    seen: set[str] = set()
+    for c in classes:
+        if c.key in seen or c.module.rel.startswith("tests"):
+            continue
+        seen.add(c.key)
+        bad = [n for n in ("__bool__", "__len__") if n in c.methods]
+        if bad:
+            run.fail(rule, f"{c.name}:{bad[0]}", f"{c.name} defines {bad[0]}: every `if <{c.name.lower()}>` / `<x> or <default>` in the package and in callers now depends on its contents instead of on its presence", fi=c.methods[bad[0]])
+        else:
+            run.ok(rule, f"{c.name}")
